@@ -235,9 +235,15 @@ func (e *run) matchShapes(c Case, w *world, local, cluster Outcome, calls []clus
 	// enclosing statement's WHERE (core.RowFilter) treats a nil key as "excluded"
 	if q, err := sql.Parse(c.SQL); err == nil {
 		for cur := q; cur != nil && cur.FromSubQuery != nil; cur = cur.FromSubQuery {
-			in := cur.FromSubQuery
-			if cur.Where != nil && in.Crosstab != nil && len(in.GroupBy) == 0 {
-				add(kfNilKey)
+			if cur.Where == nil {
+				continue
+			}
+			// the nil key survives FROM-subquery levels that have no GROUP BY dimension
+			for in := cur.FromSubQuery; in != nil && len(in.GroupBy) == 0; in = in.FromSubQuery {
+				if in.Crosstab != nil {
+					add(kfNilKey)
+					break
+				}
 			}
 		}
 	}
